@@ -263,6 +263,14 @@ def events_shard(_):
         vals = [0.5 + j for j in range(k)]
         menu += [(f"list{k}", list(vals), k), (f"tuple{k}", tuple(vals), k), (f"f4array{k}", np.array(vals, "<f4"), k),
                  (f"f8array{k}", np.array(vals, "<f8"), k), (f"i4array{k}", np.array([int(v) for v in vals], "<i4"), k)]
+        # the same counts with values a truth test / a comparison treats specially: zeros, negative zeros, NaN, inf
+        for vname, fill in (("zeros", 0.0), ("negzeros", -0.0), ("nans", float("nan")), ("infs", float("inf"))):
+            if k == 0:
+                continue
+            special = [fill] * k
+            lead = [1.5] + [fill] * (k - 1)
+            menu += [(f"{vname}-list{k}", list(special), k), (f"{vname}-f4array{k}", np.array(special, "<f4"), k),
+                     (f"lead-{vname}-list{k}", list(lead), k), (f"lead-{vname}-f8array{k}", np.array(lead, "<f8"), k)]
     menu.append(("generator2", "gen", 2))
     for etype in (0, 1):
         for cname, value, k in menu:
@@ -291,7 +299,7 @@ def events_shard(_):
                 buf = io.BytesIO()
                 e._write(buf)
                 exp = np.array([0.5, 1.5] if isgen else value, "<f4") if k is not None else None
-                if int(e.nBytes) != len(buf.getvalue()) or (exp is not None and (len(e) != len(exp) or not np.array_equal(np.asarray(e.values, "<f4"), exp))):
+                if int(e.nBytes) != len(buf.getvalue()) or (exp is not None and (len(e) != len(exp) or not np.array_equal(np.asarray(e.values, "<f4"), exp, equal_nan=True))):
                     acc.violation("accepted-but-missized", f"{PROP}:Event:accepted-but-missized:{cname.rstrip('0123')}", wit,
                                   f"Event(values={cname}): nBytes {e.nBytes}, written {len(buf.getvalue())}, values {e.values}")
                     continue
